@@ -33,7 +33,7 @@ def run(tier, seed):
             res["broken"].append({"what": "correspondence: CounterModel and the real counter.c disagree in lock-step", "scenario": "counter_mix",
                                   "seed": m["seed"], "detail": m["replay"]})
         tie = {"traces_validated_against_impl": n - len(mism), "lockstep_model_steps": steps, "model_sites_hit": sites}
-    specs = [("counter_mix", {}, 4000, 80000), ("waitn_mix", {"VRT_KIND": 1}, 1500, 30000)]
+    specs = [("counter_mix", {}, 4000, 80000), ("waitn_mix", {"VRT_KIND": 1}, 1500, 30000), ("waitn_mix", {"VRT_KIND": 1, "VRT_PRE": 1}, 1000, 20000)]
     cov = scen_common.run_scenarios(res, specs, tier, seed, {"C10", "C11"} | scen_common.LIVENESS | scen_common.CRASHES | scen_common.MEMORY)
     cov["rule"] = ("counter_mix: 1..3 decrementers (some doing +1/-1 pairs and reads), 0..2 waiters with/without deadline, a late waiter; at the "
                    "end a search for a linearization of all returned values (adds, value reads, zero-waits) against an integer that respects "
